@@ -419,7 +419,8 @@ def _proj_key(proj):
 def _contains_rec(t):
     if not isinstance(t, tuple):
         return False
-    if t and t[0] == "rec":
+    if t and (t[0] == "rec" or (t[0] == "unknown" and len(t) > 1 and t[1] == "deep")):
+        # depth-truncated terms depend on the depth at which the site was first asked for: never memoise them
         return True
     for x in t[1:]:
         if isinstance(x, tuple):
